@@ -2,5 +2,8 @@
 EXTENDS Batch, TLC
 \* record lengths from {0, 1, 3}, up to 4 records, thresholds 1, 2, 4, 100
 LenSeqs == UNION {[1..n -> {0, 1, 3}] : n \in 0..4}
+\* refinement: the batch loop implements OrderedRows (rows are visible to the abstract level only when the loop is over)
+Abs == INSTANCE OrderedRows WITH n <- N, rows <- IF fin THEN rows ELSE <<>>, complete <- fin
+RefinesOrderedRows == Abs!Spec
 Cfgs == {[lens |-> s, mem |-> m] : s \in LenSeqs, m \in {1, 2, 4, 100}}
 =============================================================================
